@@ -23,7 +23,8 @@ class C04(FprCheck):
             "with a fresh Fingerprinter; mutable default arguments are inspected after every history; thorough tier adds "
             "PYTHONHASHSEED values, threads and worker processes; both tiers also drive the entry point fprints_dict_from_mol through "
             "successive calls with the molecule object edited in place between calls (vs fresh fingerprinters) and from 4 threads "
-            "with a 1 us switch interval (vs serial). Non-trivial: history that revisits a molecule or conformer; "
+            "with a 1 us switch interval (vs serial), and fingerprint the same molecules - two of them carrying bond types outside "
+            "BOND_TYPES - in two fresh processes in different orders. Non-trivial: history that revisits a molecule or conformer; "
             "distinct by history.")
     assumptions = FprCheck.assumptions + ["thread / process interleavings are sampled, not enumerated (partial: the theorems carry the object's logic, not RDKit/NumPy thread safety)"]
 
@@ -42,6 +43,13 @@ class C04(FprCheck):
                 o["level"] = rng.choice([5, 8, -1])
                 if o["level"] == -1:
                     o["remove_duplicate_substructs"] = True
+            elif rng.random() < 0.2:
+                # molecules with bonds of types outside the BOND_TYPES table, in a random order, between ordinary ones: however
+                # the library answers them (it refuses them), the answer may not depend on which of them came first
+                kinds = rng.sample(["dative", "zero", "quadruple", "hydrogen"], 2)
+                pool = [{"exotic": kinds[0]}, {"exotic": kinds[1]}, rng.choice(refs)]
+                rng.shuffle(pool)
+                self.count("exotic-bond-types")
             all_levels = [{"level": k, "bits": None, "mask": []} for k in list(range(0, 10)) + [-1]]
             runs = []
             last = None
@@ -73,6 +81,17 @@ class C04(FprCheck):
                               "first": rng.choice([1, 2, -1])})
             self.count("entry")
             yield {"t": "entry", "pool": pool, "opts": o, "steps": steps}
+        for _ in range(1 if self.tier == "quick" else 6):
+            # two fresh processes fingerprint the same molecules in different orders (process-global state - module-level tables,
+            # class-level caches - would make the answer for a molecule depend on what the process met first)
+            kinds = rng.sample(["dative", "zero", "quadruple", "hydrogen"], 2)
+            mols = [{"exotic": kinds[0]}, {"exotic": kinds[1]}, rng.choice(refs), rng.choice(refs)]
+            o = MG.gen_opts(rng)
+            order2 = list(range(4))
+            while order2.index(1) > order2.index(0):          # the two unusual molecules meet the process in the other order
+                rng.shuffle(order2)
+            self.count("process-order")
+            yield {"t": "process-order", "mols": mols, "opts": o, "orders": [list(range(4)), order2]}
         for _ in range(1 if self.tier == "quick" else 4):
             yield {"t": "entry-threads", "sample": rng.randrange(10 ** 6), "n": 10 if self.tier == "quick" else 40}
         if self.tier == "thorough":
@@ -192,6 +211,23 @@ class C04(FprCheck):
                                     "molecule object" % (k, st["mol"], "edited in place: %s" % st["edit"] if st["edit"] else "unedited"),
                             "step": k}
             return None
+        if case["t"] == "process-order":
+            import json
+            outs = []
+            for order in case["orders"]:
+                env = dict(os.environ, PYTHONPATH=vlib.VERIF)
+                arg = json.dumps({"mols": [case["mols"][i] for i in order], "opts": case["opts"]})
+                p = subprocess.run([sys.executable, "-m", "harness.props.C04", "--order", arg], cwd=vlib.VERIF, env=env,
+                                   stdout=subprocess.PIPE, stderr=subprocess.DEVNULL, text=True, timeout=600)
+                try:
+                    res = json.loads(p.stdout.strip().splitlines()[-1])
+                except Exception:  # noqa: BLE001
+                    return {"key": "process-order-harness", "what": "child produced no result: %r" % p.stdout[-300:]}
+                outs.append({vlib.canon(case["mols"][i]): r for i, r in zip(order, res)})
+            if outs[0] != outs[1]:
+                bad = [k for k in outs[0] if outs[0][k] != outs[1].get(k)]
+                return {"key": "process-history-dependent", "what": "fingerprinting %s in a fresh process gives different answers in the orders %s" % (bad[:2], case["orders"])}
+            return None
         if case["t"] == "entry-threads":
             from concurrent.futures import ThreadPoolExecutor
             jobs = sample_jobs(case["sample"], case["n"])
@@ -284,7 +320,22 @@ def job_result(job):
     return vlib.canon(r)
 
 
+def order_child(arg):
+    import json
+    vlib.setup_env()
+    j = json.loads(arg)
+    out = []
+    for ref in j["mols"]:
+        mol = MG.load_ref(ref)
+        r = attempt(lambda: MG.run_impl(mol, mol.GetConformer(0), j["opts"], [{"level": -1, "bits": None, "mask": []}]))
+        out.append(vlib.canon(r))
+    print(json.dumps(out))
+
+
 if __name__ == "__main__":
+    if "--order" in sys.argv:
+        order_child(sys.argv[sys.argv.index("--order") + 1])
+        sys.exit(0)
     if "--sample" in sys.argv:
         vlib.setup_env()
         for j in sample_jobs(int(sys.argv[sys.argv.index("--sample") + 1]), 30):
